@@ -67,6 +67,16 @@ func VerifC20Audit() {
 	if !vEq(vKey("ir0"), vIRKey(0)) { // the designated list is sorted by key
 		signer0, signer1 = signer1, signer0
 	}
+	// several signers: an Inner Ring member co-signing does not make an outsider's result acceptable, and
+	// another member's witness does not stand for the auditor's
+	vSign(vAcct("outsider"), true)
+	vSign(signer0, true)
+	ok, _ = vInvoke("audit", "put", outsider)
+	vAssert(!ok, "C20/audit-put-only-from-inner-ring-members")
+	vSign(vAcct("outsider"), true)
+	vSign(signer1, true)
+	ok, _ = vInvoke("audit", "put", b1)
+	vAssert(!ok, "C20/audit-put-needs-the-auditor-witness")
 	vSign(signer0, true)
 	ok, _ = vInvoke("audit", "put", b1)
 	vAssume(ok)
